@@ -266,7 +266,7 @@ func evalC10(c *Ctx, cs EnumCase) EnumResult {
 	for _, sq := range a.Seqs {
 		var steps []wStep
 		var names []string
-		if a.Kind != "follower-expiry" { // there the sequence holds a parameter, not alphabet indices
+		if a.Kind != "follower-expiry" && a.Kind != "demoted-expiry" { // there the sequence holds parameters, not alphabet indices
 			for _, i := range sq {
 				steps = append(steps, alpha[i])
 				names = append(names, alpha[i].String())
@@ -343,6 +343,15 @@ func evalC10(c *Ctx, cs EnumCase) EnumResult {
 			distinct[strings.Join(names, ";")] = true
 			if msg != "" {
 				vs = append(vs, explore.Violation{Sig: "C10:follower-changed-on-its-own", Msg: fmt.Sprintf("sequence %v: %s", names, msg)})
+			}
+		case "demoted-expiry":
+			msg, e := runDemotedExpiry(sq[0], sq[1] == 1)
+			if e != "" {
+				return EnumResult{Err: e}
+			}
+			distinct[fmt.Sprint(sq)] = true
+			if msg != "" {
+				vs = append(vs, explore.Violation{Sig: "C10:demoted-leader-ended-hold-on-its-own-clock", Msg: msg})
 			}
 		case "follower-expiry":
 			msg, e := runFollowerExpiry(sq[0])
@@ -470,6 +479,57 @@ func runFollowerExpiry(E int) (msg string, err string) {
 	return
 }
 
+// runDemotedExpiry: a leader grants a hold (persisted at once, or after the default delay), then leaves the leader
+// role while staying alive; no record about the hold arrives afterwards. Like any non-leader it must not end the
+// replicated hold on its own clock while the (new) leader may still release or extend it.
+func runDemotedExpiry(E int, immediate bool) (msg string, err string) {
+	rt := vrt.Run(vrt.Options{MaxPoints: 400_000_000}, func() {
+		node := hapi.Factories["n0"](hapi.Config{Name: "n0", FastKeys: 4, Concurrent: 1})
+		if e := node.StartEngine(); e != nil {
+			err = e.Error()
+			return
+		}
+		vrt.AdvanceTo(1300 * ms)
+		c := node.NewMemClient("a")
+		cmd := hapi.Cmd{Type: 1, Req: 1, Key: 1, Id: 1, Expried: uint16(E)}
+		if immediate {
+			cmd = withEF(cmd, efZeroAof)
+		}
+		c.Do(cmd.Build())
+		vrt.Quiesce()
+		t0 := vrt.Elapsed()
+		vrt.AdvanceTo(t0 + 2500*ms) // past the default persistence delay
+		var k1 [16]byte
+		k1[15] = 1
+		ks := node.Snapshot().Key(0, k1)
+		if ks == nil || len(ks.Holds) != 1 || !ks.Holds[0].IsAof {
+			err = fmt.Sprintf("setup: the hold is not persisted 2.5 s after the grant (%v)", ks)
+			return
+		}
+		node.Poke("setstate", 2)
+		vrt.Quiesce()
+		node.ClearEvents()
+		for _, dt := range []int64{int64(E)*sec + 3*sec, int64(E)*sec + 60*sec, int64(E)*sec + 250*sec} {
+			vrt.AdvanceTo(t0 + dt)
+			ks := node.Snapshot().Key(0, k1)
+			if ks == nil || len(ks.Holds) != 1 {
+				msg = fmt.Sprintf("a node that left the leader role ended the replicated hold it had granted (expiry %d s, persisted) on its own clock %d s after the grant", E, dt/sec)
+				return
+			}
+			for _, e := range node.Events() {
+				if e.Result == 9 {
+					msg = fmt.Sprintf("a node that left the leader role sent EXPRIED for the replicated hold (expiry %d s) %d s after the grant", E, e.T/sec-t0/sec)
+					return
+				}
+			}
+		}
+	})
+	if rt.Crash != nil {
+		err = "crash: " + rt.Crash.Value
+	}
+	return
+}
+
 // runNoLeader: a node forced into a non-leader state that knows no leader refuses every request with
 // STATE_ERROR (binary) / an error (text) and changes nothing.
 func runNoLeader(steps []wStep, text bool, state int) (msg string, err string) {
@@ -581,6 +641,11 @@ func c10Cases(quick bool) []EnumCase {
 			continue
 		}
 		out = append(out, mkCase(fmt.Sprintf("follower-expiry/E%d", E), c10Arg{Kind: "follower-expiry", Seqs: [][]int{{E}}}))
+	}
+	for _, E := range []int{4, 6, 9, 30} {
+		for imm := 0; imm <= 1; imm++ {
+			out = append(out, mkCase(fmt.Sprintf("demoted-expiry/E%d/immediate=%d", E, imm), c10Arg{Kind: "demoted-expiry", Seqs: [][]int{{E, imm}}}))
+		}
 	}
 	return out
 }
